@@ -2,6 +2,7 @@ import Mimic.Catalog
 import Mimic.Extracted.Catalog
 import Mimic.Extracted.LikeCode
 import MimicProofs.Like
+import MimicProofs.HandlersCode
 /-!
 # C16 — Catalog answers mirror the application's declared schema exactly
 
@@ -314,5 +315,31 @@ example : showColumns (flatten m1) "t" (some "db2") none none = [("z", "DATE")] 
 example : showTables (flatten m1) (some "db1") none none = some ["t", "u"] := by decide +kernel
 example : like ['v', '%', '_', 'n'] ['v', 'e', 'r', 's', 'i', 'o', 'n'] = true ∧ like ['v', 'e'] ['v', 'e', 'r'] = false ∧
     like ['a', '.', 'c'] ['a', 'b', 'c'] = false := by simp [like]
+
+/-! ### COM_FIELD_LIST on the translated handler (`Mimic.Extracted.HandlersCode`) -/
+section handlers
+open Mimic.Extracted.HandlersCode MimicProofs.HandlersCode
+variable {S : Type} [DecidableEq S]
+
+/-- **COM_FIELD_LIST sends one definition per row of the catalog's answer, in its order**: `handle_field_list`, translated,
+    asks for the SHOW COLUMNS text of the packet (`fls`, schema.py), and writes for every row of the answer — in order,
+    nothing skipped or repeated — the definition built from that row and the packet's table name, then one terminator;
+    a failing catalog query writes nothing. -/
+theorem field_list_is_code (E : Mimic.Py.Env S) (app : S → Option (ResultSet S)) (fls : Mimic.Extracted.ParsersCode.ComFieldList S → S)
+    (fcd : Nat → S → Mimic.Py.Bytes → Mimic.Py.Bytes) (c : Connection S) (data : Mimic.Py.Bytes) :
+    match Mimic.Extracted.ParsersCode.parse_com_field_list E c.client_charset data with
+    | none => handle_field_list E app fls fcd c data = .error c
+    | some f =>
+      match app (fls f) with
+      | none => handle_field_list E app fls fcd c data = .error c
+      | some rs =>
+        ∃ (a l w fl : Nat),
+          let sent := c.out ++ rs.rows.rows.map (fun r => Ev.write (fcd c.server_charset f.table r) false)
+          handle_field_list E app fls fcd c data
+            = if rs.rows.boom then .error { c with out := sent }
+              else .ok { c with out := sent ++ [Ev.write (ok_or_eof c a l w fl) true] } :=
+  handle_field_list_spec E app fls fcd c data
+
+end handlers
 
 end MimicProps.C16
